@@ -55,7 +55,7 @@ class StringLiteralTypingCode:
         as_literal = use and (limit is None or card(self._literals) < ival(limit))
         return {
             "literal_iff_enabled_and_below_max": (sval(result[1]) != "str") == as_literal,
-            "literal_text": implies(as_literal, sval(result[1]) == "Literal[" + ", ".join(json.dumps(s) for s in sorted(self._literals)) + "]"),
+            "literal_text": implies(as_literal, sval(result[1]) == "Literal[" + ", ".join(json.dumps(s, ensure_ascii=False) for s in sorted(self._literals)) + "]"),
             "literal_import": implies(as_literal, seq_len(result[0]) == 1 and sval(at(at(result[0], 0), 1)) == "Literal"),
             "str_no_import": implies(not as_literal, sval(result[1]) == "str" and seq_len(result[0]) == 0),
         }
